@@ -30,6 +30,13 @@ for pid, p in PROPS.items():
     e = engines.setdefault(p["pkg"], {"name": p["pkg"], "path": "harness/" + p["pkg"], "serves_properties": [],
                                       "kind_free_text": "Go test package: rapid v1.3.0 properties + exhaustive enumerators + replay test"})
     e["serves_properties"].append(pid)
+    # parts that live in another package of the harness module
+    for part in p.get("parts", []):
+        if part.get("pkg") and part["pkg"] != p["pkg"]:
+            e2 = engines.setdefault(part["pkg"], {"name": part["pkg"], "path": "harness/" + part["pkg"], "serves_properties": [],
+                                                  "kind_free_text": "Go test package: rapid v1.3.0 properties + replay test (system-level part, runs the binary or the real runner)"})
+            if pid not in e2["serves_properties"]:
+                e2["serves_properties"].append(pid)
 m = {
     "version": 1,
     "setup_cmd": "./check --setup",
